@@ -108,6 +108,16 @@ def check_net(ctx, net, inp, path, cid, text=False, want_attr=True,
                 not np.allclose(nw, ww, rtol=tol, atol=0):
             ctx.violation(f"{path}:node_weights!=input:{icls}",
                           {**case, "got": nw, "want": ww}, cid)
+        else:
+            # the totals derived from the weights belong to them
+            tw_ = float(np.sum(ww))
+            t1_ = float(getattr(net, "total_node_weight", np.nan))
+            m1_ = float(getattr(net, "mean_node_weight", np.nan))
+            if not (abs(t1_ - tw_) <= 1e-7 * max(1.0, tw_) and
+                    abs(m1_ - tw_ / max(n, 1)) <= 1e-7 * max(1.0, tw_)):
+                ctx.violation(f"{path}:node-weight-totals!=input:{icls}",
+                              {**case, "total": t1_, "mean": m1_,
+                               "want_total": tw_}, cid)
     if want_attr and W is not None:
         ok, got = ctx.call(net.link_attribute, "w")
         ctx.count("attr_compared")
@@ -294,6 +304,17 @@ def one_input(ctx, inp, cid, tmp, heavy=True):
             except Exception:  # noqa: refused, as it must be
                 ctx.count("refused_changes")
         return o
+    # what the object hands out belongs to the caller: editing the returned
+    # adjacency / attribute matrix does not edit the network
+    def edited():
+        o = mk(A)
+        B = o.adjacency
+        B[...] = 1 - B
+        if W is not None and A.any():
+            V = o.link_attribute("w")
+            V *= -3.0
+        return o
+    build("results-edited-by-caller", edited)
     ro = build("after-refused-changes", refused)
     if ro is not None:
         build("copy-after-refused-changes", ro.copy)
@@ -407,7 +428,7 @@ def one_input(ctx, inp, cid, tmp, heavy=True):
                       f"save:{f1}-Load-change-weights-save:{f2}-Load", cid,
                       text=True)
     # spatial subclasses
-    if heavy and not d:
+    if heavy:
         from pyunicorn.core import GeoNetwork, SpatialNetwork, GeoGrid, Grid
         r = ctx.rng("grid", cid)
         lat = np.round(r.uniform(-80, 80, n))
@@ -426,7 +447,7 @@ def one_input(ctx, inp, cid, tmp, heavy=True):
             ctx.count("format_detected_from_file_name")
 
         def geo_rt():
-            net = GeoNetwork(gg, adjacency=A, node_weight_type=(
+            net = GeoNetwork(gg, adjacency=A, directed=d, node_weight_type=(
                 "surface" if nwt == "custom" else nwt), silence_level=3)
             if nwt == "custom":
                 net.node_weights = wc
@@ -464,7 +485,7 @@ def one_input(ctx, inp, cid, tmp, heavy=True):
         cl = np.cos(np.float32(lat) * np.pi / 180).astype(float)
         seq = [str(v) for v in rg.choice(["surface", "irrigation"], 4)]
         for si, t in enumerate(seq):
-            okg, gnet = ctx.call(GeoNetwork, gg, adjacency=A,
+            okg, gnet = ctx.call(GeoNetwork, gg, adjacency=A, directed=d,
                                  node_weight_type=t, silence_level=3)
             ctx.count("paths_checked")
             if not okg:
@@ -486,7 +507,8 @@ def one_input(ctx, inp, cid, tmp, heavy=True):
                          "surface" if t == "irrigation" else "irrigation")
 
         def sp_rt():
-            net = SpatialNetwork(sg, adjacency=A, silence_level=3)
+            net = SpatialNetwork(sg, adjacency=A, directed=d,
+                                 silence_level=3)
             net.node_weights = w
             with_attr(net)
             fn = (os.path.join(tmp, "sp." + gfmt),
@@ -502,14 +524,20 @@ def one_input(ctx, inp, cid, tmp, heavy=True):
         # ClimateNetwork: network + grid + similarity matrix in three files;
         # the loaded object is the saved network (adjacency as thresholded,
         # node weights = cos lat, link attribute)
-        if A.any():
+        if A.any() and not d:
             from pyunicorn.climate import ClimateNetwork
             S = np.where(A != 0, 0.9, 0.1) + np.eye(n) * 0.9
             S = np.maximum(S, S.T)
 
             def cn_rt():
-                net = ClimateNetwork(gg, S.copy(), threshold=0.5,
+                # (the similarity in the memory order the caller has it in)
+                Sg = np.asfortranarray(S.copy()) if rg.random() < 0.5 \
+                    else S.copy()
+                net = ClimateNetwork(gg, Sg, threshold=0.5,
                                      silence_level=3)
+                check_net(ctx, net, {**inp, "w": np.cos(
+                    np.float32(lat) * np.pi / 180).astype(float), "W2": None},
+                    "ClimateNetwork(thresholded)", cid, want_attr=False)
                 with_attr(net)
                 fn = (os.path.join(tmp, "cn." + gfmt),
                       os.path.join(tmp, "cn.grid"),
